@@ -275,6 +275,9 @@ func (s *Solver) body(t *Term) string {
 	case OTrunc:
 		fmt.Fprintf(&sb, "((_ extract %d 0) %s)", t.W-1, s.argRef(t.Args[0]))
 		return sb.String()
+	case OStrIsIdent:
+		fmt.Fprintf(&sb, "(str.in_re %s (re.+ (re.range \"a\" \"z\")))", s.argRef(t.Args[0]))
+		return sb.String()
 	case OStrLen:
 		fmt.Fprintf(&sb, "((_ int2bv 64) (str.len %s))", s.argRef(t.Args[0]))
 		return sb.String()
